@@ -350,3 +350,277 @@ Proof.
     eexists; split; [reflexivity|apply bi_set_hram; [exact H|apply bmem_set; [apply (BI_hram _ H)|exact Hv]]].
   - discriminate D.
 Qed.
+
+(* ---------------- the hardware half of a machine cycle ---------------- *)
+Lemma ints_request_bytes i m : ints_bytes i -> ints_bytes (ints_request i m).
+Proof.
+  intros [A B]. unfold ints_request, ints_bytes; cbn. split; [exact A|].
+  pose proof (lor_lt_pow2 (ifl i) (N.land m 31) 5) as Q. change (2 ^ 5) with 32 in Q. apply Q; [exact B|].
+  pose proof (land_lt_pow2_r m 31 5) as Q2. change (2 ^ 5) with 32 in Q2. apply Q2. lia.
+Qed.
+
+Lemma scene_wf_of p o : ppu_bytes p -> oam_inv o -> RenderSpec.scene_wf (scene_of p o).
+Proof.
+  intros [] Ho. unfold RenderSpec.scene_wf, scene_of. cbn.
+  split; [exact PB_vram0|]. split.
+  { destruct (o_dmaRunning o); [apply bmem_empty; lia|apply (OI_mem _ Ho)]. }
+  split; [auto|].
+  unfold RenderSpec.pal_ok, to_rpal; cbn. auto.
+Qed.
+
+(* renderPixel x 4: never a crash, and the address it leaves in ppuLastAccess (if any) lies in OAM *)
+Lemma render_fold_ok sc ov y (xs : list N) : RenderSpec.scene_wf sc -> forall fr la,
+  (match la with Some a => RenderProofs.oam_addr a | None => True end) ->
+  exists fr' la', fold_left (render_one sc ov y) xs (Ok (fr, la)) = Ok (fr', la') /\
+                  (match la' with Some a => RenderProofs.oam_addr a | None => True end).
+Proof.
+  intros Hwf. induction xs as [|x xs IH]; intros fr la Hla; cbn [fold_left].
+  - exists fr, la. split; [reflexivity|exact Hla].
+  - unfold render_one at 2. cbn [bind fst snd].
+    destruct (RenderProofs.render_pixel_full_ok sc ov x y Hwf) as (r & Er & _).
+    pose proof (RenderProofs.render_pixel_last_access_range sc ov x y) as Hrange.
+    unfold Render.render_pixel, Render.render_pixel_last_access in *. rewrite Er in *. cbn [bind] in *.
+    apply IH. destruct (hd_error (Render.reads (snd r))) as [a|]; [apply Hrange; reflexivity|exact Hla].
+Qed.
+
+Lemma pla_of_addr o a : RenderProofs.oam_addr a -> pla_in_oam (set_ppuLastAccess o a).
+Proof. unfold RenderProofs.oam_addr, pla_in_oam; cbn. change 0xFE00 with 65024. change 0xFE9F with 65183. lia. Qed.
+
+Lemma tick_oam_engine p o : same_engine o (tick_oam p o).
+Proof.
+  unfold tick_oam, act, oam_enter_mode2, oam_exit_mode2.
+  repeat match goal with |- context [match ?x with _ => _ end] => destruct x end; repeat split.
+Qed.
+
+Theorem sys_ppu_tick_safe s : bus_inv s -> exists s', sys_ppu_tick s = Ok s' /\ bus_inv s'.
+Proof.
+  intros H. pose proof H as [CI (a & HR & HW) PB OI AI WI HI TI II].
+  unfold sys_ppu_tick.
+  destruct (LcdSpec.on a) eqn:Hon.
+  - (* LCD on *)
+    destruct (tick_on _ a HR Hon) as (ovl & Ht & HR'). cbn [fst snd] in Ht, HR'.
+    assert (Hs : ppu_step (s_ppu s, s_oam s) PTick = Ok (tick_ppu (s_ppu s) ovl, tick_oam (s_ppu s) (s_oam s)))
+      by (cbn [ppu_step fst snd]; rewrite Ht; reflexivity).
+    pose proof (W_step _ a (@LcdSpec.Tick (oam -> oam)) _ HR HW I Hs) as HW'.
+    rewrite Ht. cbn [bind].
+    set (p1 := tick_ppu (s_ppu s) ovl) in *. set (o1 := tick_oam (s_ppu s) (s_oam s)) in *.
+    set (a' := LcdSpec.lcd_step a LcdSpec.Tick) in *.
+    assert (PB1 : ppu_bytes p1).
+    { destruct PB. pose proof (R_ticks _ _ HR) as Tk. cbn [fst] in Tk. rewrite Hon in Tk.
+      pose proof (pos_lt (LcdSpec.since a + 1)) as PL. rewrite <- Tk in PL.
+      subst p1. unfold tick_ppu. constructor; cbn; try assumption. lia. }
+    assert (OI1 : oam_inv o1) by (apply (same_engine_inv _ _ (tick_oam_engine _ _) OI)).
+    set (s1 := set_ints _ (set_oam o1 (set_ppu p1 s))).
+    assert (H1 : bus_inv s1).
+    { subst s1. apply bi_set_ints; [|apply ints_request_bytes, II].
+      apply bi_set_ppu_oam; [exact H|exists a'; split; assumption|exact PB1|exact OI1]. }
+    destruct (p_enabled (s_ppu s) && (p_mode p1 =? 3)); [|exists s1; split; [reflexivity|exact H1]].
+    match goal with |- context [if ?c then _ else _] => destruct c end; [|exists s1; split; [reflexivity|exact H1]].
+    match goal with |- context [fold_left _ ?xs _] =>
+      destruct (render_fold_ok (scene_of p1 o1) (overlaps_of p1) (p_ly p1) xs (scene_wf_of _ _ PB1 OI1)
+                               (s_frame s1) None I) as (fr' & la' & Ef & Hla) end.
+    rewrite Ef. cbn [bind fst snd].
+    eexists; split; [reflexivity|]. apply bi_set_frame.
+    assert (E1 : s_ppu s1 = p1) by (subst s1; destruct s; reflexivity).
+    apply bi_set_oam; [exact H1| |].
+    + rewrite E1. exists a'. split; [eapply R_oam_irrel, HR'|].
+      destruct la' as [x|]; [|exact HW'].
+      destruct HW' as [A B C]. constructor; cbn [fst snd] in *; [exact A| |exact C].
+      intros _. apply pla_of_addr, Hla.
+    + destruct la' as [x|]; [apply (same_engine_inv _ _ (se_pla _ _) OI1)|exact OI1].
+  - (* LCD off *)
+    pose proof (tick_off _ a HR Hon) as Ht. cbn [fst snd] in Ht. rewrite Ht. cbn [bind].
+    pose proof (R_en _ _ HR) as En. cbn [fst] in En. rewrite En, Hon. cbn [andb].
+    eexists; split; [reflexivity|].
+    apply bi_set_ints; [|apply ints_request_bytes, II].
+    apply bi_set_ppu_oam; [exact H|exists a; split; assumption|exact PB|exact OI].
+Qed.
+
+Lemma dma_source_lt o a : oam_inv o -> dma_source o = Some a -> a < 65536.
+Proof.
+  intros Ho. unfold dma_source. pose proof (OI_base _ Ho) as B. change 0xDF00 with 57088 in B.
+  destruct (o_dmaRunning o); [|discriminate].
+  destruct (o_dmaCycle o =? 0); [discriminate|]. destruct (o_dmaCycle o =? 1); [intros X; inversion X; subst; lia|].
+  destruct (o_dmaCycle o =? 161); [discriminate|]. intros X; inversion X; subst. unfold sub16. lia.
+Qed.
+
+Lemma sys_mapper_step_safe st s : bus_inv s -> exists s', sys_mapper_step st s = Ok s' /\ bus_inv s'.
+Proof.
+  intros H. destruct st; cbn [sys_mapper_step].
+  - (* DMA *)
+    assert (S1 : exists s1, match dma_source (s_oam s) with
+                            | Some a => do r <- sys_read s a; Ok (fst r)
+                            | None => Ok s
+                            end = Ok s1 /\ bus_inv s1).
+    { destruct (dma_source (s_oam s)) as [a|] eqn:Ed; [|exists s; split; [reflexivity|exact H]].
+      destruct (sys_read_safe s a H (dma_source_lt _ _ (BI_oam _ H) Ed)) as (s' & v & Er & _ & Hs' & _).
+      rewrite Er. cbn [bind fst]. exists s'. split; [reflexivity|exact Hs']. }
+    destruct S1 as (s1 & -> & H1). cbn [bind].
+    set (rd := fun a => match sys_read s a with Ok r => snd r | _ => 255 end).
+    destruct (tick_dma_safe rd (s_oam s1) (OI_dma _ (BI_oam _ H1))) as (o' & Eo & _).
+    rewrite Eo. cbn [bind]. eexists; split; [reflexivity|].
+    destruct (tick_dma_env _ _ _ Eo) as [C1 C2].
+    apply bi_set_oam; [exact H1|apply (lcd_inv_env _ _ _ (BI_lcd _ H1)); assumption|].
+    eapply oam_tick_dma_inv; [|exact Eo|apply (BI_oam _ H1)].
+    intros a Ha. subst rd. cbv beta.
+    destruct (sys_read_safe s a H Ha) as (s' & v & Er & Hv & _). rewrite Er. exact Hv.
+  - eexists; split; [reflexivity|]. apply bi_set_cart; [exact H|apply cart_ok_tick, (BI_cart _ H)].
+Qed.
+
+Lemma mapper_steps_safe l : forall s, bus_inv s ->
+  exists s', fold_left (fun r st => do x <- r; sys_mapper_step st x) l (Ok s) = Ok s' /\ bus_inv s'.
+Proof.
+  induction l as [|st l IH]; intros s H; cbn [fold_left].
+  - exists s. split; [reflexivity|exact H].
+  - cbn [bind]. destruct (sys_mapper_step_safe st s H) as (s1 & -> & H1). apply IH, H1.
+Qed.
+
+Theorem sys_mapper_end_safe s : bus_inv s -> exists s', sys_mapper_end s = Ok s' /\ bus_inv s'.
+Proof. intros H. unfold sys_mapper_end. apply mapper_steps_safe, H. Qed.
+
+Theorem sys_audio_end_safe s : bus_inv s -> exists s', sys_audio_end s = Ok s' /\ bus_inv s'.
+Proof.
+  intros H. unfold sys_audio_end. destruct (apu_cycle_safe _ (BI_apu _ H)) as (r & -> & Hr). cbn [bind].
+  eexists; split; [reflexivity|]. apply bi_set_samples, bi_set_apu; [exact H|exact Hr].
+Qed.
+
+Lemma timer_tick_bytes t : timer_bytes t -> timer_bytes (fst (timer_tick t)).
+Proof.
+  intros (A & B & C). unfold timer_tick, timer_bytes.
+  repeat match goal with |- context [if ?b then _ else _] => destruct b end; cbn; unfold u8; repeat split; try assumption; lia.
+Qed.
+
+(* one non-CPU step of runFrame's loop body *)
+Lemma hw_step_safe st c s t : st <> FCpu -> bus_inv s ->
+  exists s' t', frame_step_run st (c, s, t) = Ok (c, s', t') /\ bus_inv s'.
+Proof.
+  intros Hne H. destruct st; [congruence| | | | |]; cbn [frame_step_run].
+  - destruct (sys_ppu_tick_safe s H) as (s' & -> & H'). cbn [bind]. eexists; eexists; split; [reflexivity|exact H'].
+  - destruct (sys_mapper_end_safe s H) as (s' & -> & H'). cbn [bind]. eexists; eexists; split; [reflexivity|exact H'].
+  - destruct (sys_audio_end_safe s H) as (s' & -> & H'). cbn [bind]. eexists; eexists; split; [reflexivity|exact H'].
+  - eexists; eexists; split; [reflexivity|]. apply bi_set_timer; [exact H|apply timer_tick_bytes, (BI_timer _ H)].
+  - eexists; eexists; split; [reflexivity|].
+    destruct t; [apply bi_set_ints; [exact H|apply ints_request_bytes, (BI_ints _ H)]|exact H].
+Qed.
+
+Lemma hw_steps_safe l : forall c s t, bus_inv s ->
+  exists s' t', fold_left (fun r st => match st with FCpu => r | _ => do x <- r; frame_step_run st x end) l (Ok (c, s, t))
+                = Ok (c, s', t') /\ bus_inv s'.
+Proof.
+  induction l as [|st l IH]; intros c s t H; cbn [fold_left].
+  - exists s, t. split; [reflexivity|exact H].
+  - destruct st; try (apply IH; exact H).
+    all: match goal with |- context [frame_step_run ?st _] =>
+           destruct (hw_step_safe st c s t ltac:(discriminate) H) as (s1 & t1 & E1 & H1) end;
+      cbn [bind]; rewrite E1; apply IH, H1.
+Qed.
+
+Theorem sys_hw_cycle_safe s : bus_inv s -> exists s', sys_hw_cycle s = Ok s' /\ bus_inv s'.
+Proof.
+  intros H. unfold sys_hw_cycle.
+  destruct (hw_steps_safe frame_body cpu_init s false H) as (s' & t' & -> & H'). cbn [bind fst snd].
+  exists s'. split; [reflexivity|exact H'].
+Qed.
+
+(* ---------------- construction ---------------- *)
+Lemma ppu_power_on_bytes : ppu_bytes (fst ppu_power_on).
+Proof.
+  constructor; try (vm_compute; reflexivity).
+  - assert (E : p_vram (fst ppu_power_on) = Mem.empty 0) by reflexivity. rewrite E. apply bmem_empty. lia.
+  - repeat split; vm_compute; reflexivity.
+  - repeat split; vm_compute; reflexivity.
+  - repeat split; vm_compute; reflexivity.
+Qed.
+
+Lemma ppu_power_on_oam : oam_inv (snd ppu_power_on).
+Proof.
+  assert (E : snd ppu_power_on = set_corrupt oam_init true) by reflexivity. rewrite E.
+  apply (same_engine_inv _ _ (se_corrupt _ _) oam_init_inv).
+Qed.
+
+Local Opaque ppu_power_on.
+Theorem sys_new_inv img ser aud cs : img_bytes img -> sys_new img ser aud = Ok cs -> fst cs = cpu_init /\ bus_inv (snd cs).
+Proof.
+  intros Hi. unfold sys_new. destruct (cart_construct img) as [c| |] eqn:Ec; cbn [bind]; try discriminate.
+  cbv zeta. change (ppu_new oam_init) with ppu_power_on.
+  intros X; injection X as <-. cbn [fst snd]. split; [reflexivity|].
+  constructor; cbn [s_cart s_ints s_oam s_ppu s_joy s_timer s_apu s_wram s_hram].
+  - eapply cart_ok_construct; eassumption.
+  - exists LcdSpec.lcd_init.
+    assert (E : (fst ppu_power_on, snd ppu_power_on) = ppu_power_on) by (symmetry; apply surjective_pairing).
+    rewrite E. split; [exact R_init|exact W_init].
+  - exact ppu_power_on_bytes.
+  - exact ppu_power_on_oam.
+  - apply apu_new_inv.
+  - apply bmem_empty; lia.
+  - apply bmem_empty; lia.
+  - unfold timer_bytes; cbn; lia.
+  - unfold ints_bytes; cbn; lia.
+Qed.
+
+Local Transparent ppu_power_on.
+
+Lemma sys_new_not_exit img ser aud : sys_new img ser aud <> Exit.
+Proof.
+  unfold sys_new. destruct (cart_construct img) eqn:E; cbn [bind]; try discriminate.
+  exfalso. exact (construct_not_exit img E).
+Qed.
+
+(* ---------------- histories of bus operations ---------------- *)
+Inductive bus_op :=
+| BRead (a : N)                      (* Mapper.Read *)
+| BWrite (a v : N)                   (* Mapper.Write *)
+| BHw                                (* the hardware half of a machine cycle: PPU, DMA + RTC, APU, timer *)
+| BButton (b : N) (pressed : bool).  (* controller.ButtonAction *)
+
+Definition bus_op_wf (o : bus_op) : Prop :=
+  match o with
+  | BRead a => a < 65536
+  | BWrite a v => a < 65536 /\ v < 256
+  | _ => True
+  end.
+
+Definition bus_step (s : sys) (o : bus_op) : res sys :=
+  match o with
+  | BRead a => do r <- sys_read s a; Ok (fst r)
+  | BWrite a v => sys_write s a v
+  | BHw => sys_hw_cycle s
+  | BButton b p => Ok (sys_button s b p)
+  end.
+
+Definition bus_run (s : sys) (ops : list bus_op) : res sys :=
+  fold_left (fun r o => do x <- r; bus_step x o) ops (Ok s).
+
+Lemma bus_step_safe s o : bus_inv s -> bus_op_wf o -> exists s', bus_step s o = Ok s' /\ bus_inv s'.
+Proof.
+  intros H Hw. destruct o; cbn [bus_step bus_op_wf] in *.
+  - destruct (sys_read_safe s a H Hw) as (s' & v & -> & _ & H' & _). cbn [bind fst]. exists s'. split; [reflexivity|exact H'].
+  - destruct Hw. apply sys_write_safe; assumption.
+  - apply sys_hw_cycle_safe, H.
+  - eexists; split; [reflexivity|]. unfold sys_button. apply bi_set_joy, H.
+Qed.
+
+Theorem bus_run_safe ops : forall s, bus_inv s -> Forall bus_op_wf ops -> exists s', bus_run s ops = Ok s' /\ bus_inv s'.
+Proof.
+  unfold bus_run. induction ops as [|o ops IH]; intros s H Hw; cbn [fold_left].
+  - exists s. split; [reflexivity|exact H].
+  - inversion Hw; subst. cbn [bind]. destruct (bus_step_safe s o H) as (s1 & -> & H1); [assumption|]. apply IH; assumption.
+Qed.
+
+(* C11, bus level: any image either fails construction or yields a machine whose bus never crashes *)
+Theorem bus_level_safe img ser aud : img_bytes img ->
+  (exists w, sys_new img ser aud = Crash w) \/
+  (exists cs0, sys_new img ser aud = Ok cs0 /\
+     forall ops, Forall bus_op_wf ops -> exists s, bus_run (snd cs0) ops = Ok s).
+Proof.
+  intros Hi. destruct (sys_new img ser aud) as [cs| |] eqn:E.
+  - right. exists cs. split; [reflexivity|]. intros ops Hw.
+    destruct (sys_new_inv img ser aud cs Hi E) as [_ H0].
+    destruct (bus_run_safe ops _ H0 Hw) as (s & Es & _). exists s. exact Es.
+  - left. eexists; reflexivity.
+  - exfalso. exact (sys_new_not_exit img ser aud E).
+Qed.
+
+(* every value read is a byte *)
+Theorem bus_reads_bytes s a : bus_inv s -> a < 65536 -> exists s' v, sys_read s a = Ok (s', v) /\ v < 256.
+Proof. intros H Ha. destruct (sys_read_safe s a H Ha) as (s' & v & E & Hv & _). exists s', v. auto. Qed.
